@@ -159,7 +159,12 @@ class MessageAny(TlbScheme):
         builder = Builder().store_cell(self.info.serialize())
         if self.init:
             builder.store_bit(1)  # maybe true
-            if len(self.init.serialize().bits) <= (builder.available_bits - 2) and len(self.init.serialize().refs) <= builder.available_refs:
+            init = self.init.serialize()
+            bits_left = builder.available_bits - 2 - len(init.bits)
+            refs_left = builder.available_refs - len(init.refs)
+            # the body comes after the init: it must still fit inline, or one reference must be left for it
+            body_fits = refs_left >= 1 or (len(self.body.bits) <= bits_left and len(self.body.refs) <= refs_left)
+            if bits_left >= 0 and refs_left >= 0 and body_fits:
                 builder.store_bit(0)  # Either left
                 builder.store_cell(self.init.serialize())
             else:
